@@ -104,7 +104,8 @@ def run(tier, seed, replay):
     nedge = ic.report_trace_results(v, etraces, eres, "edgetrace", "clock-edge-level")
     cov = {
         "states": states + t.distinct + a.distinct, "transitions": trans + t.generated + a.generated,
-        "traces_validated_against_impl": len(traces) + len(etraces),
+        "traces_validated_against_impl": len(traces) + len(etraces) + sum(x.get("replayed_on_real_machine", 0) for x in per_suite.values()),
+        "behaviours_replayed_on_real_machine": sum(x.get("replayed_on_real_machine", 0) for x in per_suite.values()),
         "samples": [{"suite": "shapes1", "seed_example": "pc=16 bytes=[0x64,77,19] regs=(128,77,255) FR=15 pending interrupt"},
                     {"isa_trace": traces[0], "events": res[0]["states"]}],
         "suites": per_suite,
@@ -113,8 +114,9 @@ def run(tier, seed, replay):
         "exhaustive": False,
         "rule": "TLC BFS: every one-byte opcode x 2 PCs x 4 register sets x 5 flag values x pending interrupt; every first byte 0xF0-0xFF x every "
                 "defined (and some undefined) second bytes; addresses across the RAM/I-O boundary and supervision bands; Rd=Rs for all 256 values "
-                "x carry (thorough: unary group all values x 16 flags, register-register group incl. MUL/DIV all 65 536 pairs x carry); at every "
-                "boundary the whole abstract state must equal IsaStep. Code bound by whole-domain equality of decode, next-address and ALU functions, "
+                "x carry; all 16 register pairs x boundary values; random instruction sequences (refinement at every boundary) (thorough: unary group all values x 16 flags, register-register group incl. MUL/DIV all 65 536 pairs x carry); at every "
+                "boundary the whole abstract state must equal IsaStep. Code bound by whole-domain equality of decode, next-address, IR-step and ALU functions, "
+                "by replaying the explored boundary-to-boundary behaviours on the real machine (state rebuilt through the hooks, every field compared), "
                 "and by validating random instruction sequences of the real machine per instruction (TraceIsa) and per clock edge (TraceMachine).",
     }
     return v.finish("model_checking", cov, ["TLC", "Isa.tla as the reading of the instruction-set definition (DESIGN Appendix A)",
